@@ -110,6 +110,9 @@ type Prop struct {
 	Run func(c *C)
 	// Floor returns descriptions of coverage floors that were not met.
 	Floor func(a *Agg) []string
+	// MinCounts: counters that must reach at least the given value in a complete run (templates a
+	// seeded change once needed are generated on purpose and counted, not left to chance).
+	MinCounts map[string]int
 	// Exhaustive reports whether the run enumerates a finite space completely.
 	Exhaustive func(tier string) bool
 	// CaseTimeoutS is the per-case watchdog (seconds); default 120.
